@@ -1,5 +1,6 @@
 import Flowjaxv.Driver.Util
 import Flowjaxv.Model.FamiliesGenSem
+import Flowjaxv.Driver.Params
 /-!
 Driver ops running the GENERATED constructors / accessors of `Gen/FamiliesGen.lean` at `Float` (C05 / C11):
 
@@ -13,6 +14,12 @@ Driver ops running the GENERATED constructors / accessors of `Gen/FamiliesGen.le
         accessors `loc scale` | Uniform `minval maxval` | Exponential `rate` | StudentT `df loc scale` | LogNormal none
   gbij Affine <shape> <data> <shape> <data> <xs> | gbij Scale <shape> <data> <xs> | gbij Loc <shape> <data> <xs>
         the generated bijection constructor: `OK <shape>|<leaves>|<transform xs>|<log det>`
+  gmix <ws> <lps>
+        the generated `VmapMixture.__init__` on weights `ws` over components whose `_log_prob` values at the point are `lps`, then the
+        generated `_log_prob` on the unwrapped object: `OK <stored raw leaf (Lambda args)>|<unwrapped log_normalized_weights>|<_log_prob> <public>`
+  gmixs <ws> <component> <d> <per-component samples, flattened component-major>
+        the generated `_sample` with key = (categorical draw `component`, key2) over components whose `_sample(key2)` are the given
+        vectors: `OK <sample>`; `NONE` = no component (indexing an empty axis raises)
   gmvn <n> <loc> <chol flat row-major> <x>
         `GenFam.MultivariateNormal.init` with `cholesky := fun _ => chol`: `OK <declared shape>|<loc accessor>|<covariance accessor flat>|<_log_prob x> <public>`
 -/
@@ -107,6 +114,31 @@ def gbij : Handler
       let o := GenFam.Loc.init a
       pure (bijOut o.shape [showArr o.loc] o.toBij xs)
   | _ => .error "bad gbij op"
+
+def gmix : Handler
+  | [ws, lps] => do
+      let ws ← parseFs ws
+      let lps ← parseFs lps
+      let dist : VDist Float Float Float := ⟨[], none, lps.map fun lp => ⟨fun _ _ => lp, fun k _ => k, fun k _ => (k, lp)⟩⟩
+      pure (optOut (GenFam.VmapMixture.init dist ⟨[ws.length], ws⟩) fun m =>
+        let lp := GenFam.mixtureLogProb m.unwrap 0.0 none
+        s!"OK {showFs m.log_normalized_weights.args}|{showFs m.unwrap.log_normalized_weights}|{showF lp} {showF (Families.publicLp lp)}")
+  | _ => .error "bad gmix op"
+
+def gmixs : Handler
+  | [ws, comp, d, samples] => do
+      let ws ← parseFs ws
+      let comp ← parseNat comp
+      let d ← parseNat d
+      let samples ← parseFs samples
+      let k := if d = 0 then 0 else samples.length / d
+      let vecs := (List.range k).map fun i => (samples.drop (i * d)).take d
+      let dist : VDist (List Float) Unit Float := ⟨[d], none, vecs.map fun v => ⟨fun _ _ => 0.0, fun _ _ => v, fun _ _ => (v, 0.0)⟩⟩
+      pure (optOut (GenFam.VmapMixture.init dist ⟨[ws.length], ws⟩) fun m =>
+        match GenFam.mixtureSample m.unwrap (comp, ()) none with
+        | none => "NONE"
+        | some v => s!"OK {showFs v}")
+  | _ => .error "bad gmixs op"
 
 private def chunk (n : Nat) (xs : List Float) : List (List Float) :=
   (List.range n).map fun i => (xs.drop (i * n)).take n
